@@ -441,27 +441,34 @@ def execOp (env : Env) (fl : Flags) (opcode : Nat) (pc : Bytes) (fExec : Bool) (
   | 0xaf => opCheckMultiSig env fl true st
   | _ => none                                   -- SCRIPT_ERR_BAD_OPCODE (reserved, VERIF, unknown)
 
+/-- one iteration of the `while (pc < pend)` loop after `GetOp` returned
+    `(opcode, vchPushValue)` and left `pc` at the next operation -/
+def loopBody (env : Env) (fl : Flags) (opcode : Nat) (vchPushValue pc : Bytes) (st : State) :
+    Option State :=
+  let fExec := st.vfExec.all id
+  if vchPushValue.length > MAX_SCRIPT_ELEMENT_SIZE then none else
+  let nOpCount := if opcode > 0x60 then st.nOpCount + 1 else st.nOpCount
+  if nOpCount > MAX_OPS_PER_SCRIPT then none else
+  if opcode ∈ alwaysDisabled then none else
+  let st := { st with nOpCount := nOpCount }
+  let r : Option State :=
+    if fExec ∧ opcode ≤ 0x4e then some { st with stack := vchPushValue :: st.stack }
+    else if fExec ∨ (0x63 ≤ opcode ∧ opcode ≤ 0x68) then execOp env fl opcode pc fExec st
+    else some st
+  match r with
+  | none => none
+  | some st' =>
+    if st'.stack.length + st'.altstack.length > MAX_STACK_SIZE then none else some st'
+
 /-- the `while (pc < pend)` loop -/
 def evalLoop (env : Env) (fl : Flags) (pc : Bytes) (st : State) : Option State :=
   if pc = [] then some st else
-  let fExec := st.vfExec.all id
   match h : getOp pc with
   | none => none                                                   -- SCRIPT_ERR_BAD_OPCODE
   | some (opcode, vchPushValue, pc') =>
-    if vchPushValue.length > MAX_SCRIPT_ELEMENT_SIZE then none else
-    let nOpCount := if opcode > 0x60 then st.nOpCount + 1 else st.nOpCount
-    if nOpCount > MAX_OPS_PER_SCRIPT then none else
-    if opcode ∈ alwaysDisabled then none else
-    let st := { st with nOpCount := nOpCount }
-    let r : Option State :=
-      if fExec ∧ opcode ≤ 0x4e then some { st with stack := vchPushValue :: st.stack }
-      else if fExec ∨ (0x63 ≤ opcode ∧ opcode ≤ 0x68) then execOp env fl opcode pc' fExec st
-      else some st
-    match r with
+    match loopBody env fl opcode vchPushValue pc' st with
     | none => none
-    | some st' =>
-      if st'.stack.length + st'.altstack.length > MAX_STACK_SIZE then none
-      else evalLoop env fl pc' st'
+    | some st' => evalLoop env fl pc' st'
 termination_by pc.length
 decreasing_by exact getOp_lt h
 
